@@ -136,7 +136,15 @@ class Anchors:
 
     @property
     def f_metrics(self):
-        return self.cached("f_metrics", lambda: self.field_by_type(self.store, lambda t: "Metrics" in t, "metrics")["name"])
+        """the store's counters: the field of type Arc<X> where X is a crate struct made of atomics"""
+        def is_counters(t):
+            m = re.fullmatch(r"std::sync::Arc<([A-Za-z0-9_:]+)>", t)
+            if not m:
+                return False
+            a = self.p.facts.adts.get(m.group(1))
+            fs = self.fields(a) if a else []
+            return bool(fs) and all("atomic::Atomic" in f["ty"] for f in fs)
+        return self.cached("f_metrics", lambda: self.field_by_type(self.store, is_counters, "metrics")["name"])
 
     def lock_id(self, field):
         return "%s.%s" % (self.store["path"].split("::")[-1], field)
@@ -256,6 +264,133 @@ class Anchors:
             return fam
         return self.cached("chan_ctor_family", f)
 
+    # ---- crate-private helper types, found by structure (never by name) ----------------------
+    def _adt_where(self, pred, what):
+        hits = [a for a in self.p.facts.adts.values() if pred(a)]
+        if len(hits) != 1:
+            raise AnchorMissing("%s (found %d)" % (what, len(hits)))
+        return hits[0]
+
+    def _implements(self, adt, trait_last):
+        return any(im.get("self_adt") == adt["path"] and (im.get("trait") or "").split("::")[-1] == trait_last for im in self.p.facts.impls)
+
+    @property
+    def channeled_adt(self):
+        """the subscriber wrapper that owns a thread: has a JoinHandle slot and a sender slot"""
+        sw = self.sender_adt["path"]
+        return self.cached("channeled_adt", lambda: self._adt_where(lambda a: any("JoinHandle<" in f["ty"] for f in self.fields(a)) and any(sw in f["ty"] for f in self.fields(a)), "channeled subscriber wrapper"))
+
+    @property
+    def feeder_adt(self):
+        """the iterator's feeder: implements Subscriber, holds a sender, owns no thread"""
+        sw = self.sender_adt["path"]
+        return self.cached("feeder_adt", lambda: self._adt_where(lambda a: self._implements(a, "Subscriber") and any(sw in f["ty"] for f in self.fields(a)) and not any("JoinHandle<" in f["ty"] for f in self.fields(a)), "iterator feeder"))
+
+    @property
+    def iterator_adt(self):
+        rw = self.receiver_adt["path"]
+        return self.cached("iterator_adt", lambda: self._adt_where(lambda a: self._implements(a, "Iterator") and any(rw in f["ty"] for f in self.fields(a)), "state iterator"))
+
+    @property
+    def metrics_adt(self):
+        def f():
+            fl = [x for x in self.fields(self.store) if x["name"] == self.f_metrics][0]
+            m = re.search(r"Arc<([A-Za-z0-9_:]+)", fl["ty"])
+            a = self.p.facts.adts.get(m.group(1)) if m else None
+            if a is None:
+                raise AnchorMissing("metrics type of the store (%s)" % fl["ty"])
+            return a
+        return self.cached("metrics_adt", f)
+
+    @property
+    def metrics_trait(self):
+        def f():
+            hits = [im for im in self.p.facts.impls if im.get("self_adt") == self.metrics_adt["path"] and im.get("trait") and im.get("krate", self.crate) == self.crate and im["trait"] in self.p.facts.traits]
+            if len(hits) != 1:
+                raise AnchorMissing("metrics trait (found %d)" % len(hits))
+            return hits[0]["trait"].split("::")[-1]
+        return self.cached("metrics_trait", f)
+
+    def name_of(self, adt):
+        return adt["path"].split("::")[-1]
+
+    def fld(self, adt, pred, what):
+        """name of the unique field of adt whose type satisfies pred"""
+        key = ("fld", adt["path"], what)
+        return self.cached(key, lambda: self.field_by_type(adt, pred, what)["name"])
+
+    # field roles
+    @property
+    def f_ch_tx(self):
+        sw = self.sender_adt["path"]
+        return self.fld(self.channeled_adt, lambda t: sw in t, "sender slot of the channeled wrapper")
+
+    @property
+    def f_ch_handle(self):
+        return self.fld(self.channeled_adt, lambda t: "JoinHandle<" in t, "thread handle slot")
+
+    @property
+    def f_feed_tx(self):
+        sw = self.sender_adt["path"]
+        return self.fld(self.feeder_adt, lambda t: sw in t, "sender of the iterator feeder")
+
+    @property
+    def f_it_rx(self):
+        rw = self.receiver_adt["path"]
+        return self.fld(self.iterator_adt, lambda t: rw in t, "receiver slot of the iterator")
+
+    @property
+    def f_it_sub(self):
+        return self.fld(self.iterator_adt, lambda t: "Subscription" in t, "subscription slot of the iterator")
+
+    @property
+    def f_sc_policy(self):
+        return self.fld(self.sender_adt, lambda t: t.endswith("BackpressurePolicy"), "policy of the send wrapper")
+
+    @property
+    def f_sc_metrics(self):
+        return self.fld(self.sender_adt, lambda t: t.startswith("std::option::Option<std::sync::Arc<"), "metrics of the send wrapper")
+
+    @property
+    def selector_adt(self):
+        return self.cached("selector_adt", lambda: self.adt_by_name("SelectorSubscriber"))
+
+    @property
+    def f_sel_last(self):
+        return self.fld(self.selector_adt, lambda t: t.startswith("std::sync::Mutex<std::option::Option<") or t.startswith("std::sync::RwLock<std::option::Option<"), "remembered value of the selector subscriber")
+
+    @property
+    def f_sel_selector(self):
+        return self.fld(self.selector_adt, lambda t: t == "Select", "selector field")
+
+    @property
+    def f_sel_on_change(self):
+        return self.fld(self.selector_adt, lambda t: "dyn " in t and "Fn(" in t, "on_change callback field")
+
+    @property
+    def droppable_adt(self):
+        return self.cached("droppable_adt", lambda: self.adt_by_name("DroppableStore"))
+
+    @property
+    def f_drop_inner(self):
+        return self.fld(self.droppable_adt, lambda t: "StoreImpl<" in t, "wrapped store handle")
+
+    def builder_fields(self):
+        """role -> field name of StoreBuilder, by type"""
+        def f():
+            b = self.adt_by_name("StoreBuilder")
+            pat = {
+                "name": lambda t: t == "std::string::String",
+                "state": lambda t: t == "State",
+                "reducers": lambda t: "Reducer<" in t and "Vec<" in t,
+                "without_reducer": lambda t: t == "bool",
+                "capacity": lambda t: t == "usize",
+                "policy": lambda t: t.endswith("BackpressurePolicy"),
+                "middlewares": lambda t: "Middleware<" in t and "Vec<" in t,
+            }
+            return {role: self.field_by_type(b, pr, "builder field for " + role)["name"] for role, pr in pat.items()}
+        return self.cached("builder_fields", f)
+
     # ---- construction / reducer thread -----------------------------------------------------
     @property
     def ctor(self):
@@ -313,9 +448,19 @@ class Anchors:
         return (r is None) or r.get("ikind") == "virtual"
 
     def metric_call(self, site):
-        if self.trait_call(site, "Metrics"):
+        try:
+            mt = self.metrics_trait
+        except AnchorMissing:
+            mt = "Metrics"
+        if self.trait_call(site, mt):
             return strip_generics(site.fn["path"]).split("::")[-1]
         return None
+
+    def _mt(self):
+        try:
+            return self.metrics_trait
+        except AnchorMissing:
+            return "Metrics"
 
     def event(self, site):
         """event label of a call site or None"""
@@ -336,7 +481,7 @@ class Anchors:
                 return "NOTIFY" if m == "on_notify" else "UNSUB"
             if tr == "Dispatcher" and virtual:
                 return {"dispatch": "DISPATCH", "dispatch_thunk": "HANDOVER:thunk", "dispatch_task": "HANDOVER:task"}.get(m)
-            if tr == "Metrics":
+            if tr == self._mt():
                 return "METRIC:" + m
             if tr == "Subscription" and virtual:
                 return "UNSUBSCRIBE"
